@@ -285,6 +285,9 @@ func TestVerifC14_Pair(t *testing.T) {
 type c14MuxCase struct {
 	Filters []string `json:"filters"`
 	Topics  []string `json:"topics"`
+	// Late[i] >= 0: handler i, when it first runs, registers the filter Filters[Late[i]] again under a new number
+	// (a handler calling Handle from inside its callback, while Serve is in progress)
+	Late []int `json:"late,omitempty"`
 }
 
 // TestVerifC14_Mux: ServeMux invokes exactly the handlers whose filter matches, in
@@ -300,17 +303,41 @@ func TestVerifC14_Mux(t *testing.T) {
 		for i := 0; i < nf; i++ {
 			c.Filters = append(c.Filters, c14GenFilter(rt, "f", c.Topics[rapid.IntRange(0, nt-1).Draw(rt, "base")]))
 		}
+		if rapid.IntRange(0, 2).Draw(rt, "reentrant") == 0 {
+			for i := 0; i < nf; i++ {
+				c.Late = append(c.Late, rapid.IntRange(-2, nf-1).Draw(rt, "late"))
+			}
+		}
 		return c
 	}, func(tb rapid.TB, c c14MuxCase) {
 		mux := &ServeMux{}
 		var calls []int
+		// registered: filters in registration order (grows when a handler registers another one)
+		registered := []string{}
+		lateDone := map[int]bool{}
+		var lateAdded []int // numbers of the handlers added during the Serve in progress
 		for i, f := range c.Filters {
 			i := i
+			body := func(*Message) {
+				calls = append(calls, i)
+				if i < len(c.Late) && c.Late[i] >= 0 && !lateDone[i] {
+					lateDone[i] = true
+					nf := c.Filters[c.Late[i]]
+					num := 1000 + i
+					if mux.Handle(nf, HandlerFunc(func(*Message) { calls = append(calls, num) })) == nil {
+						registered = append(registered, nf)
+						lateAdded = append(lateAdded, num)
+					}
+				}
+			}
 			var err error
 			if i%2 == 0 {
-				err = mux.Handle(f, HandlerFunc(func(*Message) { calls = append(calls, i) }))
+				err = mux.Handle(f, HandlerFunc(body))
 			} else {
-				err = mux.HandleFunc(f, func(*Message) { calls = append(calls, i) })
+				err = mux.HandleFunc(f, body)
+			}
+			if err == nil {
+				registered = append(registered, f)
 			}
 			if (err == nil) != refValidFilter(f) {
 				vFailf(tb, nil, "ServeMux.Handle(%q): error=%v but reference valid=%v", f, err, refValidFilter(f))
@@ -320,20 +347,47 @@ func TestVerifC14_Mux(t *testing.T) {
 			}
 		}
 		multi := 0
-		for _, tp := range c.Topics {
+		// numbers[k] = handler number of the k-th registered filter
+		numbers := []int{}
+		for i, f := range c.Filters {
+			if refValidFilter(f) {
+				numbers = append(numbers, i)
+			}
+		}
+		topics := append([]string{}, c.Topics...)
+		if len(c.Late) > 0 {
+			topics = append(topics, c.Topics...) // a second round: handlers registered during the first must now be called
+		}
+		for _, tp := range topics {
+			// reference: every handler registered BEFORE this Serve whose filter matches, in registration order
 			var want []int
-			for i, f := range c.Filters {
-				if refValidFilter(f) && refMatch(refSplitLevels(f), refSplitLevels(tp)) {
-					want = append(want, i)
+			for k, f := range registered {
+				if refMatch(refSplitLevels(f), refSplitLevels(tp)) {
+					want = append(want, numbers[k])
 				}
 			}
 			if len(want) >= 2 {
 				multi++
 			}
 			calls = nil
+			lateAdded = nil
 			mux.Serve(&Message{Topic: tp, Payload: []byte("x")})
-			if !vEqInts(calls, want) {
-				vFailf(tb, nil, "ServeMux.Serve(topic %q) with filters %q invoked handlers %v, reference %v", tp, c.Filters, calls, want)
+			// handlers added while this Serve ran may or may not see the current message: ignore them here
+			got := calls[:0:0]
+			for _, n := range calls {
+				added := false
+				for _, a := range lateAdded {
+					if a == n {
+						added = true
+					}
+				}
+				if !added {
+					got = append(got, n)
+				}
+			}
+			numbers = append(numbers, lateAdded...)
+			if !vEqInts(got, want) {
+				vFailf(tb, nil, "ServeMux.Serve(topic %q) with registered filters %q (numbers %v) invoked handlers %v, reference %v", tp, registered, numbers, calls, want)
 			}
 		}
 		lbl := "mux:<2-matching"
